@@ -49,7 +49,8 @@ DropEvents == MapSeq(UpTo(N), LAMBDA i : EvCdrop(i))
 Drop == DropWith(DropEvents)
 ChildPanic == PanicWith(DropEvents)
 
-Next == EnvNext \/ PollBegin \/ ScanStep \/ ChildAnswer \/ ChildPanic \/ Drop
+Repoll == RepollPanics(DropEvents)        \* assert!(!done) / Completed => panic
+Next == EnvNext \/ PollBegin \/ ScanStep \/ ChildAnswer \/ ChildPanic \/ Drop \/ Repoll
 NextLive == Next \/ \E c \in Ch : OwedWake(c)
 Spec == Init /\ [][Next]_vars
 LiveSpec == Init /\ [][NextLive]_vars
